@@ -229,18 +229,45 @@ Proof.
   split; [|reflexivity]. apply (fold_set_sig_feqv (fun i => f_bias fn + i) (fun i => getF NF x i)). exact H.
 Qed.
 
-Lemma flush_one_feqv s1 s2 i : feqv s1 s2 -> feqv (flush_one NF s1 i) (flush_one NF s2 i).
+Lemma rec_fields_eq (s t : fstate) :
+  rec_fields t = rec_fields s -> fs_done t = fs_done s /\ fs_inact t = fs_inact s /\ fs_last t = fs_last s.
+Proof. unfold rec_fields. intros H. injection H. auto. Qed.
+
+(* what Flush leaves behind: the signals from biasNeuronCount on and the whole scratch buffer are zero *)
+Lemma fold_flush_sig is : forall s : fstate,
+  fs_sig (fold_left (flush_sig_one NF) is s) = fold_left (fun l i => upd i (fzero NF) l) is (fs_sig s) /\
+  fs_bp (fold_left (flush_sig_one NF) is s) = fs_bp s /\
+  rec_fields (fold_left (flush_sig_one NF) is s) = rec_fields s.
+Proof. induction is as [|i rest IH]; intros s; simpl; [auto|]. apply (IH (flush_sig_one NF s i)). Qed.
+
+Lemma fold_flush_bp is : forall s : fstate,
+  fs_bp (fold_left (flush_bp_one NF) is s) = fold_left (fun l i => upd i (fzero NF) l) is (fs_bp s) /\
+  fs_sig (fold_left (flush_bp_one NF) is s) = fs_sig s /\
+  rec_fields (fold_left (flush_bp_one NF) is s) = rec_fields s.
+Proof. induction is as [|i rest IH]; intros s; simpl; [auto|]. apply (IH (flush_bp_one NF s i)). Qed.
+
+Lemma fast_flush_fields (s : fstate) :
+  fs_sig (fst (fast_flush NF fn s)) =
+    fold_left (fun l i => upd i (fzero NF) l) (seq (f_bias fn) (f_total fn - f_bias fn)) (fs_sig s) /\
+  fs_bp (fst (fast_flush NF fn s)) = repeat (fzero NF) (length (fs_bp s)) /\
+  rec_fields (fst (fast_flush NF fn s)) = rec_fields s.
 Proof.
-  intros [H W]. unfold flush_one. split; [|exact W].
-  apply set_bp_rsig_in; [|reflexivity]. apply set_sig_rsig. exact H.
+  unfold fast_flush. simpl.
+  destruct (fold_flush_sig (seq (f_bias fn) (f_total fn - f_bias fn)) s) as (A1 & A2 & A3).
+  set (s1 := fold_left (flush_sig_one NF) (seq (f_bias fn) (f_total fn - f_bias fn)) s) in *.
+  destruct (fold_flush_bp (seq 0 (length (fs_bp s1))) s1) as (B1 & B2 & B3).
+  split; [congruence|]. split; [|congruence].
+  rewrite B1, upd_all by reflexivity. now rewrite A2.
 Qed.
 
 Lemma fast_flush_feqv s1 s2 :
   feqv s1 s2 -> feqv (fst (fast_flush NF fn s1)) (fst (fast_flush NF fn s2)).
 Proof.
-  intros H. unfold fast_flush. simpl. generalize (seq (f_bias fn) (f_total fn - f_bias fn)). intros is.
-  revert s1 s2 H. induction is as [|i rest IH]; intros s1 s2 H; simpl; [exact H|].
-  apply IH. apply flush_one_feqv. exact H.
+  intros [(H1 & H2 & H3) W].
+  destruct (fast_flush_fields s1) as (A1 & A2 & A3). destruct (fast_flush_fields s2) as (B1 & B2 & B3).
+  split.
+  - unfold rsig, bpF. rewrite A1, A2, B1, B2, H1, H2. repeat split; reflexivity.
+  - eapply rweak_of_rec_fields; [exact A3|exact B3|exact W].
 Qed.
 
 (* ----- RecursiveSteps ----- *)
@@ -501,8 +528,8 @@ Proof.
 Qed.
 Lemma flens_fast_flush s : flens (fst (fast_flush NF fn s)) = flens s.
 Proof.
-  unfold fast_flush. simpl. generalize (seq (f_bias fn) (f_total fn - f_bias fn)). intros is. revert s.
-  induction is as [|i rest IH]; intros s; simpl; [reflexivity|]. rewrite IH. unfold flush_one, set_bp, set_sig. flens_tac.
+  destruct (fast_flush_fields s) as (A1 & A2 & A3). apply rec_fields_eq in A3. destruct A3 as (D1 & D2 & D3).
+  unfold flens. rewrite A1, A2, D1, D2, D3, fold_upd_length, repeat_length. reflexivity.
 Qed.
 
 Definition call_lens (call : fstate -> nat -> fstate * res bool) : Prop :=
@@ -678,14 +705,10 @@ Qed.
 Lemma finv_fast_flush s : finv s -> finv (fst (fast_flush NF fn s)).
 Proof.
   intros (L & B & W). split; [rewrite flens_fast_flush; exact L|].
-  unfold fast_flush. simpl.
-  assert (G : forall is s, (forall i, In i is -> f_bias fn <= i) -> bias_ok s -> last_low s ->
-              bias_ok (fold_left (flush_one NF) is s) /\ last_low (fold_left (flush_one NF) is s)).
-  { induction is as [|i rest IH]; intros s0 Hi B0 W0; simpl; [auto|].
-    apply IH; [intros k Hk; apply Hi; simpl; auto| |exact W0].
-    intros j Hj. unfold flush_one, sigF, set_bp, set_sig, getF. simpl.
-    rewrite nth_upd_other; [apply B0; exact Hj|]. specialize (Hi i (or_introl eq_refl)). lia. }
-  apply G; auto. intros i Hi. apply in_seq in Hi. lia.
+  destruct (fast_flush_fields s) as (A1 & A2 & A3). split.
+  - intros j Hj. unfold sigF, getF. rewrite A1.
+    rewrite fold_upd_below by (intros i Hi E; apply in_seq in Hi; lia). apply B. exact Hj.
+  - eapply last_low_of_rec_fields; [exact A3|exact W].
 Qed.
 
 (* recursion: nodes already marked activated keep their mark and their signal; lastActivation is not written *)
@@ -817,23 +840,14 @@ Proof.
 Qed.
 
 (* ----- Flush brings every reachable state back to (an equivalent of) the initial one ----- *)
-Lemma flush_fields is : forall s,
-  fs_sig (fold_left (flush_one NF) is s) = fold_left (fun l i => upd i (fzero NF) l) is (fs_sig s) /\
-  fs_bp (fold_left (flush_one NF) is s) = fold_left (fun l i => upd i (fzero NF) l) is (fs_bp s) /\
-  fs_last (fold_left (flush_one NF) is s) = fs_last s.
-Proof.
-  induction is as [|i rest IH]; intros s; simpl; [auto|]. apply (IH (flush_one NF s i)).
-Qed.
-
 Theorem fast_flush_init s : finv s -> feqv (fst (fast_flush NF fn s)) (fast_init NF fn).
 Proof.
   intros (L & B & W). pose proof bias_le_sensor as HB.
   unfold flens, full_lens in L. injection L as L1 L2 L3 L4 L5.
-  unfold fast_flush. simpl.
-  destruct (flush_fields (seq (f_bias fn) (f_total fn - f_bias fn)) s) as (E1 & E2 & E3).
+  destruct (fast_flush_fields s) as (E1 & E2 & E3). apply rec_fields_eq in E3. destruct E3 as (_ & _ & E3).
   assert (Hin : forall j, f_bias fn <= j < f_total fn -> In j (seq (f_bias fn) (f_total fn - f_bias fn))).
   { intros j Hj. apply in_seq. lia. }
-  unfold feqv, rsig, rweak, bpF. rewrite E1, E2, E3. unfold fast_init. simpl.
+  unfold feqv, rsig, rweak, bpF. rewrite E1, E2, E3, L2. unfold fast_init. simpl.
   repeat split.
   - apply nth_ext with (d := fzero NF) (d' := fzero NF).
     + rewrite fold_upd_length, app_length, !repeat_length. lia.
@@ -843,11 +857,6 @@ Proof.
         rewrite app_nth1 by (rewrite repeat_length; exact Hlt). rewrite nth_repeat_lt by exact Hlt. apply B. exact Hlt.
       * rewrite (fold_upd_at (fun _ => fzero NF)); [|apply seq_NoDup|apply Hin; lia|lia].
         rewrite app_nth2 by (rewrite repeat_length; exact Hge). now rewrite nth_repeat.
-  - rewrite fold_upd_length, repeat_length. exact L2.
-  - intros j Hj. unfold from_sensor in Hj. unfold getF.
-    destruct (Nat.lt_ge_cases j (f_total fn)) as [Hlt|Hge].
-    + rewrite (fold_upd_at (fun _ => fzero NF)); [|apply seq_NoDup|apply Hin; lia|lia]. now rewrite nth_repeat.
-    + rewrite !nth_overflow; [reflexivity|rewrite repeat_length; exact Hge|rewrite fold_upd_length; lia].
   - intros j Hj. unfold getF. rewrite nth_repeat. apply W. exact Hj.
 Qed.
 
